@@ -229,22 +229,32 @@ def observe(datadir):
 
 
 def materialize(plan, datadir):
-    """(re)create the initial directory state; datadir may hold the leftovers of a previous run of the same case"""
+    """(re)create the initial directory state.  datadir may hold the leftovers of a previous run of the same case:
+    files that still have their initial bytes are kept (verified by reading them), everything else is rewritten"""
+    want = plan.init_model.files if plan.init_dir == "prepop" else {}
+    keep = set()
     if os.path.isdir(datadir):
         for name in os.listdir(datadir):
             p = os.path.join(datadir, name)
             if os.path.isdir(p) and not os.path.islink(p):
                 shutil.rmtree(p)
-            else:
-                os.unlink(p)
+                continue
+            n = ref.fileno_of(name)
+            if n in want and os.path.isfile(p) and not os.path.islink(p):
+                with open(p, "rb") as fh:
+                    if fh.read() == want[n]:
+                        keep.add(n)
+                        continue
+            os.unlink(p)
     if plan.init_dir == "absent":
         if os.path.isdir(datadir):
             os.rmdir(datadir)
         return
     os.makedirs(datadir, exist_ok=True)
-    for n, data in plan.init_model.files.items():
-        with open(os.path.join(datadir, ref.filename(n)), "wb") as fh:
-            fh.write(data)
+    for n, data in want.items():
+        if n not in keep:
+            with open(os.path.join(datadir, ref.filename(n)), "wb") as fh:
+                fh.write(data)
 
 
 def _subseq_missing(short, long_):
